@@ -605,9 +605,12 @@ class iindex(dict):
             # If that's NOT the common value, then we need to keep track
             # of which rows have explicitly obtained an uncommon value.
             common_has_been_written = False
+            # Count, per row, the cells which hold the common value: every
+            # uncommon cell (listed in `precedence` or not) takes one away.
             common_count = numpy.full(numrows, numcols, dtype=fit_dtype(numcols))
-            for rowids in gathered.get(default, []):
-                common_count[rowids] -= 1
+            for rowid_lists in gathered.values():
+                for rowids in rowid_lists:
+                    common_count[rowids] -= 1
         for coord in reversed(precedence[:-1]):
             if coord == new_common:
                 # Rows which already have ALL values at a lower precedence
@@ -618,10 +621,6 @@ class iindex(dict):
             else:
                 for rowids in gathered.get(coord, []):
                     output[rowids] = coord
-                    if not common_has_been_written:
-                        # This simple flag can save a lot of runtime, only
-                        # counting values "to the right of" the common value.
-                        common_count[rowids] -= 1
 
         # from_array will determine the new best common value for us.
         return self.__class__.from_array(output)
